@@ -52,3 +52,32 @@ Example C24_disjoint_footprints_not_vacuous :
   statuses false false db1 [] ss_fp = [true; true; false; true; true; true] /\
   footprints_disjoint false db0 [] [w24a; w24b] = false.
 Proof. split; [exact ss_fp_disjoint | split; [exact ss_fp_statuses | exact w24_not_disjoint]]. Qed.
+
+(* the part of read-your-writes that holds today is inside the theorem: statements driven by the
+   unlabelled scan MATCH (n) see the nodes (with or without labels) created earlier in the transaction,
+   and may set properties, add / remove (fresh) labels and create relationships on them *)
+Example C24_scan_sees_staged_nodes :
+  footprints_disjoint false db2 [] ss_scan = true /\
+  dump_nodes (M_txn db2 ss_scan) =
+    [(1, [0%N; 2%N], [(0%N, 5); (1%N, 7)]); (2, [2%N], [(0%N, 0); (1%N, 7)]); (3, [0%N; 2%N], [(0%N, 1); (1%N, 7)])].
+Proof. split; [exact ss_scan_disjoint | exact ss_scan_dump]. Qed.
+(* ... while a labelled scan on a label set earlier in the transaction is still K-C24-snapshot *)
+Example C24_labelled_scan_refuted :
+  dump_eqb (M_txn db2 [SScanLabel true 1%N; SLabelSet 1%N 1%N 9]) (S_txn db2 [SScanLabel true 1%N; SLabelSet 1%N 1%N 9]) = false.
+Proof. exact labelled_scan_differs. Qed.
+
+(* the same for the code's transaction including its commit: label removals are applied after all other
+   buffered writes (K-C24-label-order); without label removals in the buffer the commit is the sequential one *)
+Definition C24_code_txn_disjoint_footprints_statement : Prop :=
+  forall db ss, footprints_disjoint false db [] ss = true ->
+    no_label_removal (run false false db ss) = true -> M_txn db ss = txn true false db ss.
+Theorem C24_code_txn_disjoint_footprints : C24_code_txn_disjoint_footprints_statement.
+Proof. exact M_txn_footprint_ryw. Qed.
+Print Assumptions C24_code_txn_disjoint_footprints.
+
+(* refuted without that hypothesis: REMOVE n:L then SET n:L in one transaction loses the SET *)
+Definition C24_label_order_refuted_statement : Prop :=
+  exists db ss, footprints_disjoint false db [] ss = true /\ dump_eqb (M_txn db ss) (S_txn db ss) = false.
+Theorem C24_label_order_refuted : C24_label_order_refuted_statement.
+Proof. exists db2, ss_label_order. split; vm_compute; reflexivity. Qed.
+Print Assumptions C24_label_order_refuted.
